@@ -130,9 +130,18 @@ type reqDesc struct {
 	List     string `json:"decoder_list"`
 	Cut      int    `json:"cut,omitempty"`
 	Replay   string `json:"replay,omitempty"` // kill-after-body | kill-after-headers | idle-close: make net/http replay the request once
+	Phase    string `json:"phase,omitempty"`  // overlap-after-poison | nested-outer | nested-inner | poison
+	Poison   string `json:"poison,omitempty"` // read-error | pipe-closed | close-error (body fails after FailAt bytes)
+	FailAt   int    `json:"fail_after_bytes,omitempty"`
+	Nested   string `json:"nested_request_id,omitempty"`
+
+	nest   *reqDesc        // request performed from inside this request's body reader
+	arrive *sync.WaitGroup // barrier: all exchanges of a wave call the client at the same moment
+	gate   <-chan struct{}
 }
 
 type outcome struct {
+	nested     *outcome
 	gotConns   int // connections the transport obtained for this one request (2 = it was replayed)
 	prevOnConn string
 	respBody   string
@@ -528,8 +537,14 @@ func (g *group) client(t string, level int) (*http.Client, error) {
 
 // ---------------------------------------------------------------- one exchange
 
-func (g *group) exec(d *reqDesc, body []byte) outcome {
-	o := outcome{wireLen: -1}
+func (g *group) exec(d *reqDesc, body []byte) (o outcome) {
+	o = outcome{wireLen: -1}
+	arrived := false
+	defer func() {
+		if d.arrive != nil && !arrived {
+			d.arrive.Done() // an exchange that ends before the barrier must not hold the others up
+		}
+	}()
 	var rdr io.Reader
 	var cl *http.Client
 	setCE := ""
@@ -542,6 +557,11 @@ func (g *group) exec(d *reqDesc, body []byte) outcome {
 		}
 		cl = c
 		rdr = bytes.NewReader(body)
+		if d.nest != nil {
+			nr := &nestReader{g: g, inner: d.nest, data: bytes.NewReader(body)}
+			rdr = nr
+			defer func() { o.nested = nr.out }()
+		}
 	default:
 		cl = g.raw
 		if d.Via != "" {
@@ -616,6 +636,11 @@ func (g *group) exec(d *reqDesc, body []byte) outcome {
 				replayAttempts.Add(1)
 			}
 		}
+	}
+	if d.arrive != nil {
+		d.arrive.Done()
+		<-d.gate
+		arrived = true
 	}
 	var resp *http.Response
 	if pv, stack := driver.Catch(func() { resp, err = cl.Do(req) }); pv != nil {
@@ -761,6 +786,16 @@ func (g *group) evaluate(d *reqDesc, body []byte, o outcome, retried bool) (agai
 	}
 	c.Eval()
 	c.Observe("requests", 1)
+	if d.Phase != "" {
+		c.Observe("phase:"+d.Phase, 1)
+	}
+	if d.Mode == "toclient" && o.cerr != nil && o.gotConns == 0 && rc.outerSeen == 0 && !strings.Contains(o.cerr.Error(), "dial tcp") {
+		// the transport never obtained a connection: the error was produced by the client's own round trippers
+		// (compression) for a body it was given in full - no repetition can make that a load artefact
+		c.Violation("client-error", fmt.Sprintf("the confighttp client (compression %q level %d) failed before sending a %d-byte body: %v", d.Client, d.Level, D, o.cerr), wit,
+			"algo", algoClass(algo), "mode", d.Mode, "phase", "p"+d.Phase, "list", d.List)
+		return false
+	}
 
 	// ---- the two rules that hold for every request, whatever it is
 	if rc.gotN > L {
@@ -935,7 +970,7 @@ func (g *group) evaluate(d *reqDesc, body []byte, o outcome, retried bool) (agai
 			return false
 		}
 	}
-	c.Nontrivial(d.Mode, algoClass(d.CE), lvl, d.SizeCls, rel, d.List, replayed)
+	c.Nontrivial(d.Mode, algoClass(d.CE), lvl, d.SizeCls, rel, d.List, replayed, d.Phase)
 	if replayed == "replayed" && exact {
 		c.Observe("replayed_and_delivered_exactly", 1)
 	}
@@ -1206,6 +1241,181 @@ func (g *group) plan(rng *rand.Rand, nRandom int) []*reqDesc {
 	return out
 }
 
+// ---------------------------------------------------------------- poison then overlap
+
+var errPoison = errors.New("c16: body reader failed on purpose")
+
+// failBody is a request body that breaks: its Read fails after FailAt bytes, or its Close fails.
+type failBody struct {
+	data    []byte
+	k, pos  int
+	variant string
+}
+
+func (f *failBody) Read(p []byte) (int, error) {
+	limit := f.k
+	if f.variant == "close-error" {
+		limit = len(f.data)
+	}
+	if f.pos >= limit {
+		if f.variant == "close-error" {
+			return 0, io.EOF
+		}
+		return 0, errPoison
+	}
+	n := copy(p, f.data[f.pos:limit])
+	f.pos += n
+	return n, nil
+}
+
+func (f *failBody) Close() error {
+	if f.variant == "close-error" {
+		return errPoison
+	}
+	return nil
+}
+
+// nestReader performs a complete exchange of its own (same client settings, same compressor pool) from inside the
+// first Read of the body it stands for: the outer compression holds a pooled writer while the inner one runs.
+type nestReader struct {
+	g     *group
+	inner *reqDesc
+	data  *bytes.Reader
+	out   *outcome
+}
+
+func (n *nestReader) Read(p []byte) (int, error) {
+	if n.out == nil {
+		o := n.g.exec(n.inner, mkBody(n.inner.Kind, n.inner.Size, n.inner.BodySeed))
+		n.out = &o
+	}
+	return n.data.Read(p)
+}
+
+var freshLevel atomic.Int64
+
+// poison sends one request whose body breaks and checks that the failure surfaces as a client error and that no
+// complete body reaches the handler.
+func (g *group) poison(rng *rand.Rand, t string, level int) {
+	c := g.c
+	d := g.newDesc("toclient")
+	d.Phase, d.Client, d.CE, d.Codec, d.Level = "poison", t, ceOfType(t), ceOfType(t), level
+	d.Poison = []string{"read-error", "pipe-closed", "close-error"}[rng.Intn(3)]
+	if d.CE == "" {
+		d.Poison = "read-error" // without compression net/http owns the body; it ignores Close errors
+	}
+	d.Kind, d.BodySeed, d.Buf = kinds[rng.Intn(len(kinds))], rng.Int63(), 4096
+	d.Size = []int{1, 100, 4096, 65536, 65537, 200000}[rng.Intn(6)]
+	d.FailAt = []int{0, 1, d.Size / 2, d.Size - 1, 32768, 65536}[rng.Intn(6)]
+	if d.FailAt >= d.Size || d.FailAt < 0 {
+		d.FailAt = d.Size / 2
+	}
+	d.SizeCls = "poison"
+	body := mkBody(d.Kind, d.Size, d.BodySeed)
+	cl, err := g.client(t, level)
+	if err != nil {
+		c.Inconclusive("harness-setup")
+		return
+	}
+	var rdr io.Reader = &failBody{data: body, k: d.FailAt, variant: d.Poison}
+	if d.Poison == "pipe-closed" {
+		pr, pw := io.Pipe()
+		go func() {
+			pw.Write(body[:d.FailAt])
+			pw.CloseWithError(errPoison)
+		}()
+		rdr = pr
+	}
+	ctx, cancel := context.WithTimeout(context.Background(), netGuard)
+	defer cancel()
+	req, err := http.NewRequestWithContext(ctx, http.MethodPost, g.url, rdr)
+	if err != nil {
+		return
+	}
+	req.Header.Set("Content-Type", "application/octet-stream")
+	req.Header.Set("X-Case", d.ID)
+	req.Header.Set("X-Buf", "4096")
+	var resp *http.Response
+	status := 0
+	pv, stack := driver.Catch(func() { resp, err = cl.Do(req) })
+	if resp != nil {
+		status = resp.StatusCode
+		io.Copy(io.Discard, io.LimitReader(resp.Body, 1<<16))
+		resp.Body.Close()
+	}
+	settled := g.settle()
+	rc, _ := g.take(d.ID)
+	wit := map[string]any{"request": *d, "status": status, "client_error": fmt.Sprint(err), "handler_calls": rc.innerCalls, "handler_read": rc.gotN, "handler_clean_eof": rc.clean}
+	sig := []string{"algo", algoClass(d.CE), "poison", d.Poison, "list", d.List}
+	switch {
+	case pv != nil:
+		wit["stack"] = stack
+		c.Violation("panic", fmt.Sprintf("the confighttp client panicked on a body that fails: %v", pv), wit, "where", driver.PanicSite(stack), "list", "client-side")
+		return
+	case loopkit.IsTimeout(err) || !settled:
+		c.Inconclusive("exchange-timeout")
+		return
+	}
+	c.Eval()
+	c.Observe("requests", 1)
+	c.Observe("phase:poison", 1)
+	if err == nil {
+		c.Violation("poison", fmt.Sprintf("the client reported success (status %d) for a %s request whose body broke after %d of %d bytes (%s)", status, d.CE, d.FailAt, d.Size, d.Poison), wit, sig...)
+	} else if rc.innerCalls > 0 && rc.clean {
+		c.Violation("poison", fmt.Sprintf("a %s request whose body broke after %d of %d bytes (%s) reached the handler as a complete body of %d bytes", d.CE, d.FailAt, d.Size, d.Poison, rc.gotN), wit, sig...)
+	} else {
+		c.Observe("poisoned_requests_failed_cleanly", 1)
+	}
+	c.Nontrivial("poison", algoClass(d.CE), level < 0, d.Poison, d.FailAt == 0, g.ls.name)
+}
+
+// poisonThenOverlap: for one (compression type, level) - whose compressors live in one process-wide pool - first
+// break 1-3 requests mid-body, then (optionally) run a request from inside another request's body reader, then start
+// 4-16 exchanges with the same client settings off a barrier. Whatever the broken requests left in the pool, every
+// later body must still arrive exactly.
+func (g *group) poisonThenOverlap(rng *rand.Rand, t string) {
+	level := 0
+	if ceOfType(t) != "" {
+		lv := levelsFor(configcompression.Type(t))
+		level = lv[rng.Intn(len(lv))]
+		if t == "zstd" && rng.Intn(2) == 0 {
+			level = int(-1000 - freshLevel.Add(1)) // a level nobody used yet: its pool starts empty
+		}
+	}
+	for i, n := 0, 1+rng.Intn(3); i < n; i++ {
+		g.poison(rng, t, level)
+	}
+	mk := func(phase string) *reqDesc {
+		d := g.newDesc("toclient")
+		d.Phase, d.Client, d.CE, d.Codec, d.Level = phase, t, ceOfType(t), ceOfType(t), level
+		d.Kind, d.BodySeed = kinds[rng.Intn(len(kinds))], rng.Int63()
+		cls := []string{"small", "L/2", "L-1", "L", "nearL", "blk+1", ">block", ">block", ">block"}[rng.Intn(9)]
+		d.SizeCls = cls
+		if cls == ">block" {
+			d.Size = []int{70000, 140000, 300000, 1 << 20}[rng.Intn(4)]
+		} else {
+			d.Size = sizeFor(rng, cls, g.L, d.CE)
+		}
+		if d.Size > 1<<20 {
+			d.Size, d.SizeCls = 1<<20, ">block"
+		}
+		d.Buf = pickBuf(rng, d.Size)
+		return d
+	}
+	if ceOfType(t) != "" && rng.Intn(2) == 0 {
+		outer, inner := mk("nested-outer"), mk("nested-inner")
+		outer.nest, outer.Nested = inner, inner.ID
+		g.runWave([]*reqDesc{outer}, false)
+	}
+	n := []int{4, 4, 8, 8, 16}[rng.Intn(5)]
+	wave := make([]*reqDesc, n)
+	for i := range wave {
+		wave[i] = mk("overlap-after-poison")
+	}
+	g.runWave(wave, false)
+	g.c.Distinct("poison_overlap_classes", t, level < -999, n)
+}
+
 // pickCodec draws from the candidates, three times out of four among those this server has enabled.
 func (g *group) pickCodec(rng *rand.Rand, cands []string) string {
 	if rng.Intn(4) != 0 {
@@ -1226,6 +1436,16 @@ func (g *group) runWave(wave []*reqDesc, retried bool) {
 	bodies := make([][]byte, len(wave))
 	outs := make([]outcome, len(wave))
 	var wg sync.WaitGroup
+	if len(wave) > 1 {
+		// start the client calls of a wave off a barrier so that they really overlap
+		var arrive sync.WaitGroup
+		gate := make(chan struct{})
+		arrive.Add(len(wave))
+		for _, d := range wave {
+			d.arrive, d.gate = &arrive, gate
+		}
+		go func() { arrive.Wait(); close(gate) }()
+	}
 	for i, d := range wave {
 		bodies[i] = mkBody(d.Kind, d.Size, d.BodySeed)
 		wg.Add(1)
@@ -1252,7 +1472,15 @@ func (g *group) runWave(wave []*reqDesc, retried bool) {
 			continue
 		}
 		outs[i].rc, outs[i].hasRec = g.take(d.ID)
-		if g.evaluate(d, bodies[i], outs[i], retried) {
+		more := g.evaluate(d, bodies[i], outs[i], retried)
+		if d.nest != nil && outs[i].nested != nil {
+			no := *outs[i].nested
+			no.rc, no.hasRec = g.take(d.nest.ID)
+			if g.evaluate(d.nest, mkBody(d.nest.Kind, d.nest.Size, d.nest.BodySeed), no, retried) {
+				more = true
+			}
+		}
+		if more {
 			again = append(again, d)
 		}
 	}
@@ -1264,6 +1492,12 @@ func (g *group) runWave(wave []*reqDesc, retried bool) {
 			g.c.Observe("transport_error_repeated", 1)
 			nd := *d
 			nd.ID = d.ID + "-again"
+			nd.arrive, nd.gate = nil, nil
+			if d.nest != nil {
+				in := *d.nest
+				in.ID += "-again"
+				nd.nest, nd.Nested = &in, in.ID
+			}
 			g.runWave([]*reqDesc{&nd}, true)
 		}
 	}
@@ -1344,6 +1578,9 @@ func run(c *driver.Ctx) {
 			g.runWave(plan[off:end], false)
 			off = end
 		}
+		for _, t := range clientTypes[1:] { // "none" and the six codecs
+			g.poisonThenOverlap(rng, t)
+		}
 		g.stop()
 		c.Progress()
 	}
@@ -1365,7 +1602,7 @@ func main() {
 	driver.Main(driver.Spec{
 		ID:    "C16",
 		Level: "exploration",
-		Rule: "a case is one HTTP exchange through confighttp's client and/or server middleware; cases are grouped by server configuration (max_request_body_size x compression_algorithms list), each group = directed sweep (every client compression type x sizes {0,1,limit-1,limit,limit+1} x {compressible,incompressible}; every hand-made Content-Encoding value; one decompression bomb per codec) + seeded random draws (type x every level ValidateParams accepts x size class incl. codec block boundaries +-1 x body kind x handler buffer size x chunked/sized, hand-compressed variants, truncated streams) + the replay dimension (ToClient exchanges marked idempotent whose reused keep-alive connection is cut once by the front end - after the body, after the headers of a single-write request, or by a server-side close of the idle connection - so that http.Transport replays the compressed request through GetBody; every client compression type + none); " +
+		Rule: "a case is one HTTP exchange through confighttp's client and/or server middleware; cases are grouped by server configuration (max_request_body_size x compression_algorithms list), each group = directed sweep (every client compression type x sizes {0,1,limit-1,limit,limit+1} x {compressible,incompressible}; every hand-made Content-Encoding value; one decompression bomb per codec) + seeded random draws (type x every level ValidateParams accepts x size class incl. codec block boundaries +-1 x body kind x handler buffer size x chunked/sized, hand-compressed variants, truncated streams) + the replay dimension (ToClient exchanges marked idempotent whose reused keep-alive connection is cut once by the front end - after the body, after the headers of a single-write request, or by a server-side close of the idle connection - so that http.Transport replays the compressed request through GetBody; every client compression type + none) + per group and compression type a 'poison then overlap' phase (1-3 requests whose body reader fails after a seed-chosen number of bytes or whose Close fails; optionally an exchange performed from inside another exchange's body reader; then 4-16 exchanges with the same type/level started off a barrier, sizes incl. several codec blocks; zstd also at a level nobody used before so that the process-wide compressor pool starts empty); " +
 			"distinct = (mode, algorithm or header class, level, size class, relation to the limit {within, wire-over, decoded-over, not-enabled, listed-unsupported, corrupt}, decoder list); every counted case is non-trivial (it reached the middleware and was decided by the oracle)",
 		Assumptions: []string{
 			"'within limit' means max(size on the wire, decoded size) <= max_request_body_size, because the middleware deliberately applies the same limit to the compressed request; the wire size is the Content-Length measured by an observer handler in front of the chain (bytes consumed for chunked requests); decoded<=limit<wire only requires 'delivered exactly or refused with a client error'",
